@@ -120,7 +120,8 @@ def run(ctx):
         def _record_method(t):
             return tm.contains(t, lambda u: isinstance(u, T) and u.op == "app" and isinstance(u.args[0], str) and u.args[0].startswith("m:") and u.args[1] and
                                isinstance(u.args[1][0], T) and u.args[1][0].op == "bv")
-        if _record_method(m["inb"]) or _record_method(m["outb"]):
+        _unbuilt = lambda t: tm.contains(t, lambda u: isinstance(u, T) and u.op == "raise")  # noqa: E731  (a record built from `**element` of an unknown dict)
+        if _record_method(m["inb"]) or _record_method(m["outb"]) or _unbuilt(m["inb"]) or _unbuilt(m["outb"]):
             # the parsed inputs / outputs are records that serialise THEMSELVES (ti.serialize()): over a buffer of unknown
             # structure the summary does not know the records' class, so the per-field terms cannot be read -- the ids are
             # decided by the round trips on built transactions (C04.6), which inline those methods on concrete records
@@ -276,8 +277,27 @@ def check_mine_block(ctx, oid="C04.4"):
         if not hdrs:
             # the header is built by something else than block_header (a record with __bytes__): every merkle root inside the
             # header bytes handed to block_ser
+            def _roots_in(v, out, seen):
+                if id(v) in seen:
+                    return
+                seen.add(id(v))
+                if isinstance(v, T):
+                    if v.op == "app" and v.args[0] == "bits.blockchain.merkle_root":
+                        out.append(v)
+                    for a in v.args:
+                        _roots_in(a, out, seen)
+                elif isinstance(v, (list, tuple)):
+                    for a in v:
+                        _roots_in(a, out, seen)
+                elif isinstance(v, dict):
+                    for a in v.values():
+                        _roots_in(a, out, seen)
+                elif hasattr(v, "fields") and isinstance(getattr(v, "fields"), dict):  # a record carried through the nonce loop
+                    for a in v.fields.values():
+                        _roots_in(a, out, seen)
             for c in ser:
-                roots += [t for t in tm.subterms(c[1][0]) if isinstance(t, T) and t.op == "app" and t.args[0] == "bits.blockchain.merkle_root"] if c[1] else []
+                if c[1]:
+                    _roots_in(c[1][0], roots, set())
         okh = bool(roots)
         for m in roots:
             leaves = rules.unfz(m.args[1][0]) if isinstance(m, T) and m.op == "app" and m.args[0] == "bits.blockchain.merkle_root" else None
